@@ -431,6 +431,16 @@ def oracle_one(ctx, c, out):
         return sorttrace_oracle(ctx, c, out)
     if w[0] == 'GSEL':
         return gsel_oracle(ctx, c, out)
+    if w[0] in ('GBS', 'GES'):
+        vals = list(map(int, w[2:])); EV[w[0]] += 1
+        if out.startswith('OOB'): return w[0] + ': comparer called outside [0,n)'
+        k, f = map(int, out.split())
+        srt = all(vals[i] <= vals[i + 1] for i in range(len(vals) - 1))
+        if f and not (0 <= k < len(vals) and vals[k] == 0): return w[0] + ': found at an index whose comparer value is not 0'
+        if srt and not f and (0 in vals or k != sum(1 for v in vals if v < 0)): return w[0] + ': sorted comparer, result %s is not the partition point' % out
+        if not (0 <= k <= len(vals)): return w[0] + ': index outside [0,n]'
+        if len(vals) >= 3: ctx.nontrivial.add(c)
+        return None
     if w[0] == 'GGRP':
         vals = list(map(int, w[2:])); EV['GGRP'] += 1
         if out.startswith('OOB'): return 'pvGroup wrote outside the array'
@@ -666,6 +676,20 @@ def run(ctx):
     b, _ = run_oracle(ctx, hradix, radix, 'oracle-radix'); bad += b
     b, _ = run_oracle(ctx, hradix, codeg, 'oracle-codegetter'); bad += b
     gsel_cases = gen_gsel(ctx, scale)
+    # generated pvBinarySearch / pvExponentialSearch vs the real private functions: all sorted comparer arrays (-1* 0* 1*) up to
+    # length 9, all arbitrary arrays over {-1,0,1} up to length 5, longer sorted ones
+    for n_ in range(0, 10):
+        for a_ in range(0, n_ + 1):
+            for b_ in range(0, n_ - a_ + 1):
+                vals = [-1] * a_ + [0] * b_ + [1] * (n_ - a_ - b_)
+                gsel_cases.append('GBS %d %s' % (n_, ' '.join(map(str, vals)))); gsel_cases.append('GES %d %s' % (n_, ' '.join(map(str, vals))))
+    for n_ in range(1, 6):
+        for seq in itertools.product((-1, 0, 1), repeat=n_):
+            gsel_cases.append('GBS %d %s' % (n_, ' '.join(map(str, seq)))); gsel_cases.append('GES %d %s' % (n_, ' '.join(map(str, seq))))
+    for _ in range(200 * scale):
+        n_ = ctx.rng.choice([14, 15, 16, 30, 31, 62, 63, 64, 200]); a_ = ctx.rng.below(n_ + 1); b_ = ctx.rng.below(3) if ctx.rng.chance(1, 2) else 0
+        vals = ([-1] * a_ + [0] * b_ + [1] * n_)[:n_]
+        gsel_cases.append('GBS %d %s' % (n_, ' '.join(map(str, vals)))); gsel_cases.append('GES %d %s' % (n_, ' '.join(map(str, vals))))
     # generated pvGroup vs the real private HashSorter::pvGroup (final arrangement)
     for n_ in range(1, 8):
         for seq in itertools.product((0, 1, 2), repeat=n_):
@@ -743,7 +767,7 @@ def run(ctx):
     allc = leaves + small + longc + sorts + radix + narrow + st_hs + st_rs + big + codeg + gsel_cases + bigm + plumb_h + plumb_r + gs_cases
     for c in (small[len(small) // 2], small[-1], longc[0], sorts[len(sorts) // 3], leaves[5]):
         ctx.add_sample(c[:300])
-    ctx.coverage['input_distribution'] = {k: sum(1 for c in allc if c.startswith(k + ' ')) for k in ('MS', 'SC', 'CMP', 'FH', 'F', 'B', 'S', 'SORT', 'RADIX', 'RADIXP', 'RADIXI', 'HSORT', 'RSORT', 'BIGFIND', 'SCODE', 'UCODE', 'GSEL', 'BIGM', 'GRADIX', 'IPF', 'PCODE', 'GCYC', 'GGRP', 'GS')}
+    ctx.coverage['input_distribution'] = {k: sum(1 for c in allc if c.startswith(k + ' ')) for k in ('MS', 'SC', 'CMP', 'FH', 'F', 'B', 'S', 'SORT', 'RADIX', 'RADIXP', 'RADIXI', 'HSORT', 'RSORT', 'BIGFIND', 'SCODE', 'UCODE', 'GSEL', 'BIGM', 'GRADIX', 'IPF', 'PCODE', 'GCYC', 'GGRP', 'GS', 'GBS', 'GES')}
     ctx.coverage['input_distribution'].update({'measured: ' + k: v for k, v in sorted(EV.items())})
     ctx.coverage['max_array_length'] = max([int(c.split()[2]) for c in longc + sorts] + [int(c.split()[1]) for c in big])
     ctx.coverage['radix'] = 'RadixSorter<1..16> x codes of 8/16/32/64 bits x sizes around the selection-sort threshold 2^(R/2+1) + pointers; std sorted() oracle + groupFunc-call oracle'
